@@ -105,13 +105,14 @@ type StreamPlan struct {
 	WriteFirst bool // client writes its first message before reading pushes
 	Steps      []StreamStep
 	// results
-	OpenErr  error
-	Reads    []StreamRead
-	Problem  string
-	done     int32
-	stage    atomic.Value // string
-	ups      uint32
-	readKept [][]byte
+	OpenErr   error
+	Reads     []StreamRead
+	Problem   string
+	CanaryHit string
+	done      int32
+	stage     atomic.Value // string
+	ups       uint32
+	readKept  [][]byte
 }
 
 // StreamStep is one client write plus the reads it entitles the client to.
@@ -340,14 +341,32 @@ func (sp *StreamPlan) run(c *e2eConn, p E2E, retain bool) {
 		sp.OpenErr = err
 		return
 	}
+	nread := 0
 	read := func(what string) bool {
 		sp.setStage("read " + what)
 		box := svc.NewBox(codec)
-		if err := st.ReadMessage(nil, box.Ptr()); err != nil {
+		// a caller-supplied buffer of varying capacity, canary-filled
+		nread++
+		var ubuf []byte
+		if c := []int{-1, 0, 16, 64, 700, 4096, 70001, 131072}[(int(sp.ID)+nread)%8]; c >= 0 {
+			ubuf = make([]byte, c)
+			for i := range ubuf {
+				ubuf[i] = 0xA5
+			}
+		}
+		if err := st.ReadMessage(ubuf, box.Ptr()); err != nil {
 			sp.Problem = fmt.Sprintf("ReadMessage (%s) failed on an open stream: %v", what, err)
 			return false
 		}
 		b := box.Get()
+		if len(ubuf) > 0 && len(b) > 0 && len(b) <= len(ubuf) && &b[0] == &ubuf[0] {
+			for i := len(b); i < len(ubuf); i++ {
+				if ubuf[i] != 0xA5 {
+					sp.CanaryHit = fmt.Sprintf("ReadMessage with a caller-supplied buffer of %d bytes returned a %d-byte message and overwrote byte %d of the buffer", len(ubuf), len(b), i)
+					break
+				}
+			}
+		}
 		sp.Reads = append(sp.Reads, StreamRead{Info: svc.ParseStream(b), Len: len(b), Sum: svc.Sum(b)})
 		if retain {
 			sp.readKept = append(sp.readKept, b)
@@ -1291,6 +1310,9 @@ func judgeStreams(out *Outcome, p E2E, conns []*e2eConn, srecs []svc.StreamRec) 
 				out.add("C09", "C09/e2e/client-sequence", fmt.Sprintf("client stream %d (push=%d writeFirst=%v): %s (%s)", sp.ID, sp.Push, sp.WriteFirst, bad, cfgs), nil)
 			}
 			nMsgs += int64(len(sp.Reads))
+			if sp.CanaryHit != "" {
+				out.add("C11", "C11/e2e/stream-buffer-canary", fmt.Sprintf("stream %d: %s (%s)", sp.ID, sp.CanaryHit, cfgs), nil)
+			}
 			// server side
 			if len(sp.Steps) > 0 {
 				sr := recByStream[sp.ID]
